@@ -224,6 +224,14 @@ func limitTable(rep *vh.Report) {
 				violate(rep, "X_limits/shrex/limits/outbound-blocked/"+name, fmt.Sprintf("outbound limit %d", int(pp.StreamsOutbound)), row)
 			}
 		}
+		finite := func(v int64) bool { return v > 0 && v < math.MaxInt64/2 }
+		if !finite(int64(b.svcPeer.StreamsInbound)) || !finite(int64(b.svcPeer.Memory)) || !finite(int64(b.svc.StreamsInbound)) || !finite(int64(b.svc.Memory)) {
+			violate(rep, "X_limits/shrex/limits/service-budget-not-registered",
+				fmt.Sprintf("at %d GiB the shrex service scopes are not bounded: service %d streams / %d bytes, per peer %d streams / %d bytes "+
+					"(0 = left to the resource manager's default, -1 = unlimited)", gib, int(b.svc.StreamsInbound), int64(b.svc.Memory),
+					int(b.svcPeer.StreamsInbound), int64(b.svcPeer.Memory)), row)
+			return
+		}
 		if int(b.svcPeer.StreamsInbound) > int(b.svc.StreamsInbound) || int64(b.svcPeer.Memory) > int64(b.svc.Memory) {
 			violate(rep, "X_limits/shrex/limits/peer-budget-above-service-budget",
 				fmt.Sprintf("at %d GiB one peer may take %d streams / %d bytes of a service budget of %d / %d", gib,
@@ -265,6 +273,9 @@ func productionPlan(name string, b builtLimits, peers int) *shPlan {
 
 func runShrexProduction(t *testing.T, rep *vh.Report, squares []eds.AccessorStreamer) {
 	limitTable(rep)
+	if nViol.Load() > 0 {
+		return
+	}
 	b := shrexOnlyLimits(0)
 	rps, burst := shrex.VerifRateLimit()
 	if rps != math.Trunc(rps) {
